@@ -51,7 +51,7 @@ SITE = {
 
 
 # repaired defects whose old witnesses are still replayed (a reproduction is an unattributed violation)
-FIXED = {'KF-D14', 'KF-D16', 'KF-PLNORM', 'KF-G6'}
+FIXED = {'KF-D14', 'KF-D16', 'KF-PLNORM', 'KF-G6', 'KF-D7', 'KF-G3', 'KF-RGLOBSTAR'}
 
 
 def _crosses_link(root: str, q: str) -> bool:
@@ -199,18 +199,11 @@ def _glob_cases(ck, sr_k8, sr, drv, G, P, W, R, root, tree, ents, pats, fl, excl
             kid = None
             if not is_dir:
                 kid = 'KF-NOTDIR'
-            elif method == 'rglob' and exp[0] == 'ok' and res[0] == 'ok' and K.sig_first_gstar(W, P, pats, fl):
-                # rglob(p) for a p that already starts with a globstar segment must be glob(p); the
-                # specification list equals that, the code's list is short of it
-                # (compared without de-duplication)
-                plain = K.outcome(lambda: list(obj.glob(pats, flags=fl | P.NOUNIQUE, exclude=exclude)))
-                ref = K.outcome(lambda: [obj.joinpath(x) for x in G.glob(spec_pats, flags=spec_fl | P.NOUNIQUE,
-                                                                          root_dir=str(obj), exclude=exclude)])
-                if plain == ref:
-                    kid = 'KF-RGLOBSTAR'
-            # (the walker halves of KF-PARTPREFIX / KF-NEWLINE — per-part regexes compiled with `_EXTMATCHBASE` still
-            #  set: rglob('*(a|b)') yielded every name, rglob('?') the directory 'c\n' — are repaired (G6): a list
-            #  that differs from glob('**/' + p) is unattributed, whatever the pattern and the names)
+            # (rglob(p) for a p that already starts with a globstar segment used to be short of glob(p): KF-RGLOBSTAR,
+            #  repaired — the implicit globstar part is no longer put in front of a pattern-initial globstar.  The walker halves
+            #  of KF-PARTPREFIX / KF-NEWLINE — per-part regexes compiled with `_EXTMATCHBASE` still set: rglob('*(a|b)') yielded every
+            #  name, rglob('?') the directory 'c\n' — are repaired too (G6): a list that differs from glob('**/' + p) is
+            #  unattributed, whatever the pattern and the names)
             f = Failing(f'Path.{method} differs from glob.glob(root_dir=path) joined onto the path',
                         case.inp(P, tree), _show(exp), _show(got), SITE.get(kid, 'wcmatch/pathlib.py:195-236'))
             _hist(sr, f'failing:{kid or "unattributed"}')
@@ -296,10 +289,9 @@ def _match_vs_rglob(ck, sr, G, P, W, root, tree, ents, pat, fl) -> None:
                 eq = K.rglob_public_equivalent(P, pat, fl)
                 fixed = ('none',) if eq is None else K.outcome(lambda: [P.Path(x) for x in G.glob(eq[0], flags=eq[1], root_dir='.')])
             truth = (P.Path(q) in fixed[1]) if fixed[0] == 'ok' else None
-            if m[1] and not member and K.sig_first_gstar(W, P, pat, fl) and \
-                    P.Path(q) in K.outcome(lambda: list(P.Path('.').glob(pat, flags=fl | P.NOUNIQUE)))[1]:
-                kid = 'KF-RGLOBSTAR'        # glob(p) (= what rglob(p) must be here) yields q: rglob lost it
-            elif any(comp.endswith('\n') for comp in q.split('/')) and \
+            # (repaired, no longer attributed: KF-RGLOBSTAR — rglob of a pattern starting with a globstar lost / added results;
+            #  KF-G3 — second `**` group of match() lstat-ed under the wrong base; KF-D7 — a link to a file as last piece of `**`)
+            if any(comp.endswith('\n') for comp in q.split('/')) and \
                     ((m[1] and not member) or (fl & P.EXTGLOB and '!(' in pat)):
                 # a name ENDING in a newline: match() accepts it through the '$' of its prefix divider `(?:^|$|/)+`
                 # (the walker's per-part regexes have no prefix since the G6 repair: rglob does not yield it), or
@@ -309,23 +301,15 @@ def _match_vs_rglob(ck, sr, G, P, W, root, tree, ents, pat, fl) -> None:
                 # a segment that can match '' : the right-anchored regex of match() accepts any name (rglob, whose
                 # per-part regexes have no prefix since the G6 repair, does not yield it, nor does glob('**/' + p))
                 kid = 'KF-PARTPREFIX'
-            elif m[1] and not member and _crosses_link(root, q) and K.sig_has_gstar_segment(W, P, pat, fl):
-                # the implicit `**/` of match() plus a written globstar = two `**` groups: _fs_match lstat-s the
-                # pieces of the second group under the wrong directory and misses the symlinked directory (G3)
-                kid = 'KF-G3'
             elif not m[1] and member and truth is True and _crosses_link(root, q) and K.sig_has_gstar_segment(W, P, pat, fl) and \
                     K.outcome(lambda: cls(q).match(pat, flags=fl & ~P.REALPATH))[1] is True:
                 # the regex accepts q and the walker (also through the public `**/p`) yields it, but the decomposition the regex engine
                 # found first puts the symlinked directory inside a captured `**`: _fs_match looks at no other reading (G8)
                 kid = 'KF-G8'
-            elif not m[1] and member and truth is False and K.sig_first_gstar(W, P, pat, fl):
-                kid = 'KF-RGLOBSTAR'        # rglob yields q although glob('**/'+p) does not: the unmerged second `**` acts as a name matcher
             elif m[1] and not member and K.sig_D6(W, P, pat, fl, q):
                 kid = 'KF-D6'
             elif m[1] and not member and K.sig_D8(W, P, pat, fl, q):
                 kid = 'KF-D8'
-            elif not m[1] and member and K.sig_D7(W, P, pat, fl, q):
-                kid = 'KF-D7'
             elif not m[1] and member and word is not None:
                 # the strings glob yielded (before pathlib normalised them) do not contain q, but
                 # contain a string with a '.' component that joinpath normalises to q
@@ -460,6 +444,9 @@ def _witnesses(ck: Check, sr, G, P, W) -> None:
             open(os.path.join(root, f), 'w').close()
         os.symlink('f.txt', os.path.join(root, 'lf'))
         os.symlink('d', os.path.join(root, 'ld'))
+        os.symlink('nowhere', os.path.join(root, 'dang'))
+        os.makedirs(os.path.join(root, 'g3', 'dd'))
+        os.symlink('../../d', os.path.join(root, 'g3', 'dd', 'l'))
         os.chdir(root)
         tree = K.describe(root)
 
@@ -492,6 +479,9 @@ def _witnesses(ck: Check, sr, G, P, W) -> None:
         _hist(sr, 'D6 pure witness ' + ('reproduced' if d6 else 'NOT reproduced (repaired?)'))
         mvr('KF-D6', '**', P.GLOBSTAR, 'd/.hid')
         mvr('KF-D7', '**', P.GLOBSTAR, 'lf')
+        mvr('KF-D7', '**', P.GLOBSTAR, 'dang')
+        mvr('KF-G3', '**/dd/**', P.GLOBSTAR, 'g3/dd/l/x')
+        mvr('KF-RGLOBSTAR', '**/x', P.GLOBSTAR, 'ld/x')
         mvr('KF-D8', '**/', P.GLOBSTAR, 'f.txt')
         mvr('KF-DOTSEG', '.', 0, 'd')
         mvr('KF-NEWLINE', '?', 0, 'a\n')
@@ -499,7 +489,7 @@ def _witnesses(ck: Check, sr, G, P, W) -> None:
         mvr('KF-D14', '@(a|b)', P.EXTGLOB, 'a\n')
         mvr('KF-D16', '*', P.NODIR, 'x\\')
         mvr('KF-RGLOBSTAR', '**/*', P.GLOBSTAR, 'xyz')
-        mvr('KF-G8', '**', P.GLOBSTAR | P.GLOBSTARLONG | P.FOLLOW, 'ld/x')
+        mvr('KF-G8', '*/**/x', P.GLOBSTAR, 'g3/dd/l/x')
         a = [str(x) for x in P.Path('.').rglob('**/*', flags=P.GLOBSTAR)]
         b = G.glob('**/*', flags=G.GLOBSTAR)
         seen('KF-RGLOBSTAR', sorted(a) != sorted(b), "Path('.').rglob('**/*') loses results glob('**/*') has",
@@ -523,8 +513,8 @@ def _witnesses(ck: Check, sr, G, P, W) -> None:
         seen('KF-NOTDIR', (not a and bool(b)) or c[0] == 'ok', 'Path.glob on a non-directory path short-circuits',
              {'api': 'Path.glob', 'path': 'f.txt', 'patterns': ['./', '/a']}, {'./': b, '/a': 'ValueError'},
              {'./': a, '/a': list(c)})
-        sr.note = 'the witnesses of the listed findings, replayed on the real code on a fourteen-entry tree'
-        sr.distinct += 17
+        sr.note = 'the witnesses of the listed findings and of the repaired ones, replayed on the real code on an eighteen-entry tree'
+        sr.distinct += 21
     finally:
         os.chdir(cwd0)
         shutil.rmtree(top, ignore_errors=True)
